@@ -10,6 +10,8 @@ OpsV == {"GoNew", "Sentinel", "CtxDeadline", "Errno", "New", "Newf", "NewfW", "P
          "HandleAsAssertionFailure", "NewAssertionErrorWithWrappedErrf", "WrapWithHTTPCode",
          "WrapWithGrpcCode", "GoWrap", "PkgWithMessage", "PkgWithStack", "PkgWrap", "OsPathError",
          "OsLinkError", "OsSyscallError", "UWrap", "Join", "JoinPkg", "GoJoin", "GoWrap2", "Hop"}
+\* restricted instance: %w formats below message wrappers, joins and barriers
+OpsW == {"GoNew", "New", "NewfW", "Wrap", "WithMessage", "Handled", "Join", "GoWrap", "WithHint"}
 ShapesV == {<<"w1">>, <<"w1", "SEP", "w2">>}
 Shapes2V == {<<"w2">>}
 =============================================================================
